@@ -313,4 +313,25 @@ def TokenFresh {σ} (verify : TokState → Nat → Token σ → Bool) (mac : Pay
   ∀ (s : TokState) (old new : Payload) (now : Nat), old ∈ s.issued → new ≠ old →
     verify (s.issue new) now ⟨old, mac old⟩ = false
 
+/-! ### tokens as byte strings (what an attacker can actually send)
+
+`base64url(payload) "." base64url(sig)`.  SPECIFICATION of the issuing side: `sig = mac key payload`
+(`mac` = HMAC-SHA256, a parameter here, the executable `Sky.Hash.hmacSha256` in the driver); of the
+verifying side: accept iff `sig = mac key payload` and the payload's expiry has not passed. -/
+
+structure RawToken where
+  payload : List Nat
+  sig : List Nat
+deriving DecidableEq, Repr
+
+/-- the token the node must hand out for a payload -/
+def issueSpec (mac : List Nat → List Nat → List Nat) (key payload : List Nat) : RawToken :=
+  ⟨payload, mac key payload⟩
+
+/-- verdict on a presented two-part, base64-clean token whose payload is valid JSON -/
+def rawVerify (mac : List Nat → List Nat → List Nat) (key : List Nat) (expired : Bool) (t : RawToken) : Option Why :=
+  if t.sig ≠ mac key t.payload then some .csrfSig
+  else if expired then some .csrfExpired
+  else none
+
 end Sky.C27
